@@ -13,7 +13,7 @@ PROGS = {
 }
 SCENARIOS = {"sa": ("string", "a"), "sb": ("string", "b"), "sd": ("string", "d"), "va": ("variant", "a"), "vb": ("variant", "b"),
              "vd": ("variant", "d"), "pc": ("ptr", "c"), "pb": ("ptr", "b"), "se": ("string", "e"), "ve": ("variant", "e"), "pe": ("ptr", "e")}
-OPS = {"string": ["aeqb", "beqa", "aeqa", "wa", "wb", "ca", "cb", "da", "db"], "variant": ["aeqb", "beqa", "aeqa", "wa", "wb", "ca", "cb", "da", "db"],
+OPS = {"string": ["aeqb", "beqa", "aeqa", "wa", "wb", "ca", "cb", "da", "db"], "variant": ["aeqb", "beqa", "aeqa", "wa", "wb", "ca", "cb", "da", "db", "la", "lb", "oa", "ob", "la", "oa"],
        "ptr": ["aeqb", "beqa", "aeqa", "ca", "cb", "sw", "sw", "da", "db"]}
 
 
